@@ -11,12 +11,16 @@ Driver commands of property C12 / C09 writer part (core Lean only).  Command nam
       exhaustive exploration of the LTS for this configuration:
       `states=<n> dead=<n> badprefix=<n> final=<n> outs=<distinct final outs>`
   c12.seq <script>      the sequential writer's output: `<nblocks> <eof>`
+  c12.abstract <concrete script: w<bytes>|f|wt|c>
+      the Lean abstraction `Hts.Model.WriterCompose.absScript` of a concrete script (payload sizes) to the LTS
+      script (`w<k>`, `f0|f1`, `wt`, `c`) — compared with the harness's own block-splitting simulation
 
 script:  comma separated  w<k> | f0 | f1 | wt | c          ("-" = empty)
 events:  comma separated  C<op> (call) | R<ok|err|closed> (return) | U<blk|e>:<0|1> (underlying Write, ok flag)
 -/
 import Hts.Drv.Util
 import Hts.Model.WriterLTS
+import Hts.Model.WriterAbs
 import Std.Data.HashSet
 namespace Hts.Drv.C12
 open Hts.Drv Hts.Model.WriterLTS
@@ -147,8 +151,26 @@ def exploreCmd (wc : Nat) (rep : Bool) (fault : Option Nat) (script : List Op) :
     | s :: _ => (toString (repr s.api)).replace " " "" ++ "/" ++ ((toString (repr s.em)).replace " " "").replace "\n" ""
   s!"states={all.length} dead={dead.length} badprefix={badp.length} final={fin.length} outs={outs.length} deadAt={deadDesc}"
 
+/-- a concrete script by payload sizes: `w<bytes>` | `f` | `wt` | `c` -/
+def parseConcrete (s : String) : Option (Hts.Model.BgzfWriter.Op Unit) :=
+  if s == "wt" then some .wait
+  else if s == "c" then some .close
+  else if s == "f" then some .flush
+  else if s.startsWith "w" then (parseNat (s.drop 1).toString).map fun n => .write (List.replicate n ())
+  else none
+
+def showOp : Op → String
+  | .write k => s!"w{k}"
+  | .flush b => if b then "f1" else "f0"
+  | .wait => "wt"
+  | .close => "c"
+
 def handle (cmd : String) (args : List String) : Option String :=
   match cmd, args with
+  | "c12.abstract", [script] => do
+    let ops ← parseList parseConcrete script
+    let abs := Hts.Model.WriterCompose.absScript ops
+    some (if abs.isEmpty then "-" else ",".intercalate (abs.map showOp))
   | "c12.traceu", [wc, rep, fault, script, evs] => do
     some (traceCmd true (← parseNat wc) (rep == "1") (← parseFault fault) (← parseList parseOp script) (← parseList parseEv evs))
   | "c12.tracec", [wc, rep, fault, cfs, script, evs] => do
